@@ -1640,6 +1640,13 @@ class Evaluator:
     def int_product(self, r, a, b, node=None):
         """A product / power evaluated in the callers' fixed-width integer dtype whose degree in the counts is >= 3 (wraps at 2**21 per factor)."""
         da, db = int_degree(a), int_degree(b)
+
+        def float_leaf(n):
+            if isinstance(n, ast.BinOp) and isinstance(n.op, (ast.Mult, ast.Pow)):
+                return float_leaf(n.left) or float_leaf(n.right)
+            return isinstance(n, ast.Constant) and isinstance(n.value, float)
+        if isinstance(node, ast.BinOp) and float_leaf(node):
+            return r   # a float literal among the factors: the product is evaluated in floating point
         if da is not None and db is not None and (da >= 1 or db >= 1):
             d = int_degree(r)
             if d is not None and d >= 3:
